@@ -91,7 +91,7 @@ class TU:
         pid = d.get('parentDeclContextId')
         if pid and pid in self.qual:
             return self.qual[pid]
-        return 'vfps'
+        return 'vfps' if self.cmd[-2].endswith('vfps::') else ''
 
     def _index(self, n, ctx):
         if not isinstance(n, dict):
